@@ -1,9 +1,9 @@
 //! C17: decomposition of a rational prime in the maximal order (prime_decomp/simple.rs), with the
 //! random history of the modular factorization captured and replayed, and the process-level
 //! `rust-number-theory <config>` with to_find = prime-decomposition (only when RNT_BIN is set).
-use crate::c16::{field_from_wire, fields, ideal_rows, ints, make_field, Field};
+use crate::c16::{field_from_wire, fields, ideal_rows, ints, make_field, Field, Tab};
 use crate::common::*;
-use num::{BigInt, One};
+use num::{BigInt, One, Zero};
 use rust_number_theory::prime_decomp::decompose;
 
 /// op line: pd.decompose f B T p draws => H:e|H:e|… ; returns the answer
@@ -131,6 +131,31 @@ pub fn generate(ctx: &mut Ctx) {
             *take -= 1;
             for (p, ans) in answers.iter().filter(|(p, a)| p < &BigInt::from(14) || p.bits() > 64 || a.starts_with("panic")).take(10) {
                 do_cli(ctx, &fld, p, ans);
+            }
+        }
+    }
+    // primes beyond a machine word that RAMIFY: x^2 - q, x^3 - q, x^2 + q x + q at p = q (Eisenstein at q, so
+    // Z[theta] is q-maximal and q does not divide the index of the order handed over, Z[theta] itself;
+    // find_integral_basis is not used here: it would factor the discriminant by trial division)
+    for q in big_primes() {
+        for f in [
+            vec![-q.clone(), BigInt::zero(), BigInt::one()],
+            vec![-q.clone(), BigInt::zero(), BigInt::zero(), BigInt::one()],
+            vec![q.clone(), q.clone(), BigInt::one()],
+        ] {
+            let theta = rust_number_theory::algebraic::Algebraic::new(rust_number_theory::polynomial::Polynomial::from_raw(f.clone()));
+            let built = std::panic::catch_unwind(std::panic::AssertUnwindSafe(|| {
+                let order = rust_number_theory::order::trivial_order_monic(&theta);
+                let mt = order.get_mult_table(&theta);
+                (order, mt)
+            }));
+            if let Ok((order, mt)) = built {
+                let fld = Field { f: f.clone(), theta, order, tab: Tab::from_table(mt) };
+                let seed = ctx.rng.next();
+                do_decompose(ctx, &fld, &q, seed, vec![]);
+                // and an unramified small prime in the same field
+                let seed = ctx.rng.next();
+                do_decompose(ctx, &fld, &BigInt::from(7), seed, vec![]);
             }
         }
     }
